@@ -93,6 +93,11 @@ def generate(rng, tier, idx):
         return corpus_case(rng, idx)
     if idx % 8 == 6:
         return pre_productmd_case(rng)
+    if idx % 8 == 5:
+        # the recorded reference behaviour of the header-less reader's release-specific rules
+        return {"machine": "M-TI", "cfg": {"simset": pick(rng, ["insertion", "shuffle"])},
+                "ops": [{"op": "ti_golden", "path": "/sim/d/.treeinfo", "k": rng.randrange(10 ** 6), "via": pick(rng, ["path", "handle", "loads"])}
+                        for _ in range(rng.randint(1, 3))]}
     which = idx % 8
     if which in (0, 1):
         kit = KITS["M-CI"]
